@@ -12,7 +12,12 @@ separated by `;`, a list group is `nil`, `e` (empty, non-nil) or integers.
 
 `@ C14 flex C0` : a FlexSlice with `Values = make([]int, 0, C0)`; ops
    append v… | prepend v… | get I | remove I | pop | shift | sub A B | subset A B | len
+   appendn K V0 | prependn K V0   (the K values V0, V0+1, …)     popn K | shiftn K   (K times Pop / Shift:
+   answer = sum of the returned values and number of successes)
  every answer ends with `| len cap [backing array]`.
+`@ C14 flexL C0` : the same machine for the large stream (capacities in the thousands); the state
+ is printed as `| len cap hash(Values) hash(backing array)`.  The bulk ops are instances of the
+ list operations `c14_flex_refines` speaks about (`appendn` = one `Append` of K values, `popn` = K `Pop`s).
 -/
 import Golib.Model.C14Flex
 
@@ -180,55 +185,93 @@ def call (ts : List String) : String :=
 
 /-! ### FlexSlice op sequences -/
 
-def showFlex (f : Flex) : String := s!"{f.len} {f.cap} {showInts f.mem}"
+/-- state display: full (`len cap [backing array]`) or, for the large stream, compact
+(`len cap hash(Values) hash(backing array)`) -/
+def hashInts (xs : List Int) : Int :=
+  xs.foldl (fun h v => (h * 1000003 + v + 7) % 1000000007) 0
 
-def flexStep (f : Flex) (ts : List String) : Option (Option (Flex × String)) :=
+def showFlex (compact : Bool) (f : Flex) : String :=
+  if compact then s!"{f.len} {f.cap} {hashInts f.values} {hashInts f.mem}"
+  else s!"{f.len} {f.cap} {showInts f.mem}"
+
+/-- `v0, v0+1, …` (`k` values) -/
+def seqFrom (v0 : Int) (k : Nat) : List Int := (List.range k).map fun (i : Nat) => v0 + (i : Int)
+
+/-- `k` times `Pop()` / `Shift()`: final state, sum of the returned values, number of successes -/
+def repeatRemove (op : Flex → Option (Flex × Int × Bool)) : (k : Nat) → Flex → Int → Nat → Option (Flex × Int × Nat)
+  | 0, f, s, n => some (f, s, n)
+  | k + 1, f, s, n =>
+    match op f with
+    | none => none
+    | some (f', v, ok) => repeatRemove op k f' (s + v) (if ok then n + 1 else n)
+
+def flexStep (c : Bool) (f : Flex) (ts : List String) : Option (Option (Flex × String)) :=
   -- outer none = bad-op, inner none = panic
   match ts with
   | "append" :: vs =>
     match ints? vs with
-    | some v => let f' := f.append goGrow v; some (some (f', s!"ok | {showFlex f'}"))
+    | some v => let f' := f.append goGrow v; some (some (f', s!"ok | {showFlex c f'}"))
     | none => none
   | "prepend" :: vs =>
     match ints? vs with
-    | some v => let f' := f.prepend v; some (some (f', s!"ok | {showFlex f'}"))
+    | some v => let f' := f.prepend v; some (some (f', s!"ok | {showFlex c f'}"))
+    | none => none
+  | ["appendn", k, v0] =>
+    match k.toNat?, v0.toInt? with
+    | some k, some v0 => let f' := f.append goGrow (seqFrom v0 k); some (some (f', s!"ok | {showFlex c f'}"))
+    | _, _ => none
+  | ["prependn", k, v0] =>
+    match k.toNat?, v0.toInt? with
+    | some k, some v0 => let f' := f.prepend (seqFrom v0 k); some (some (f', s!"ok | {showFlex c f'}"))
+    | _, _ => none
+  | ["popn", k] =>
+    match k.toNat? with
+    | some k => some ((repeatRemove Flex.pop k f 0 0).map fun (f', sum, n) => (f', s!"{sum} {n} | {showFlex c f'}"))
+    | none => none
+  | ["shiftn", k] =>
+    match k.toNat? with
+    | some k => some ((repeatRemove Flex.shift k f 0 0).map fun (f', sum, n) => (f', s!"{sum} {n} | {showFlex c f'}"))
     | none => none
   | ["get", i] =>
     match i.toInt? with
-    | some i => some ((f.get i).map fun (v, ok) => (f, s!"{v} {showBool ok} | {showFlex f}"))
+    | some i => some ((f.get i).map fun (v, ok) => (f, s!"{v} {showBool ok} | {showFlex c f}"))
     | none => none
   | ["remove", i] =>
     match i.toInt? with
-    | some i => some ((f.remove i).map fun (f', v, ok) => (f', s!"{v} {showBool ok} | {showFlex f'}"))
+    | some i => some ((f.remove i).map fun (f', v, ok) => (f', s!"{v} {showBool ok} | {showFlex c f'}"))
     | none => none
-  | ["pop"] => some (f.pop.map fun (f', v, ok) => (f', s!"{v} {showBool ok} | {showFlex f'}"))
-  | ["shift"] => some (f.shift.map fun (f', v, ok) => (f', s!"{v} {showBool ok} | {showFlex f'}"))
+  | ["pop"] => some (f.pop.map fun (f', v, ok) => (f', s!"{v} {showBool ok} | {showFlex c f'}"))
+  | ["shift"] => some (f.shift.map fun (f', v, ok) => (f', s!"{v} {showBool ok} | {showFlex c f'}"))
   | ["sub", a, b] =>
     match a.toInt?, b.toInt? with
-    | some a, some b => some ((f.subSlice a b).map fun nf => (f, s!"{showFlex nf}"))
+    | some a, some b => some ((f.subSlice a b).map fun nf => (f, s!"{showFlex c nf}"))
     | _, _ => none
   | ["subset", a, b] =>
     match a.toInt?, b.toInt? with
-    | some a, some b => some ((f.subSlice a b).map fun nf => (nf, s!"ok | {showFlex nf}"))
+    | some a, some b => some ((f.subSlice a b).map fun nf => (nf, s!"ok | {showFlex c nf}"))
     | _, _ => none
   | ["len"] => some (some (f, toString f.len))
   | _ => none
 
-def runFlex : Option Flex → List String → List String
+def runFlex (c : Bool) : Option Flex → List String → List String
   | _, [] => []
-  | none, _ :: ls => "dead" :: runFlex none ls
+  | none, _ :: ls => "dead" :: runFlex c none ls
   | some f, l :: ls =>
-    match flexStep f (toks l) with
-    | none => "bad-op" :: runFlex (some f) ls
-    | some none => "panic" :: runFlex none ls
-    | some (some (f', out)) => out :: runFlex (some f') ls
+    match flexStep c f (toks l) with
+    | none => "bad-op" :: runFlex c (some f) ls
+    | some none => "panic" :: runFlex c none ls
+    | some (some (f', out)) => out :: runFlex c (some f') ls
 
 def runCase (hdr : List String) (ops : List String) : List String :=
   match hdr with
   | ["calls"] => "ok" :: ops.map fun l => call (toks l)
   | ["flex", c] =>
     match c.toNat? with
-    | some c => "ok" :: runFlex (some (mkFlex [] c)) ops
+    | some c => "ok" :: runFlex false (some (mkFlex [] c)) ops
+    | none => "bad-op" :: ops.map fun _ => "bad-op"
+  | ["flexL", c] =>
+    match c.toNat? with
+    | some c => "ok" :: runFlex true (some (mkFlex [] c)) ops
     | none => "bad-op" :: ops.map fun _ => "bad-op"
   | _ => "bad-op" :: ops.map fun _ => "bad-op"
 
